@@ -59,6 +59,14 @@ func buildSchema() *graphql.Schema {
 		schemabuilder.BatchFilterFieldWithFallback("tf1", txtB, txtE, yes),
 		schemabuilder.BatchFilterFieldWithFallback("tf0", txtB, txtE, no),
 		schemabuilder.FilterField("s", func(i PItem) string { return i.Str }),
+		schemabuilder.FilterField("sx", func(i PItem) string { return i.Str }, schemabuilder.Expensive),
+		schemabuilder.BatchFilterField("sb", func(items map[batch.Index]PItem) (map[batch.Index]string, error) {
+			m := make(map[batch.Index]string, len(items))
+			for k, it := range items {
+				m[k] = it.Str
+			}
+			return m, nil
+		}),
 		schemabuilder.SortField("num", num),
 		schemabuilder.SortField("numx", num, schemabuilder.Expensive),
 		schemabuilder.BatchSortField("numb", numB),
@@ -75,7 +83,7 @@ type params struct {
 	first, last   *int64
 	after, before *string
 	filterText    string
-	filterField   string // "" = all fields
+	filterField   string // "" = all fields; otherwise a comma-separated list of filter fields
 	sortBy        string
 	desc          bool
 }
@@ -97,7 +105,11 @@ func (p params) query() string {
 	if p.filterText != "" {
 		a = append(a, fmt.Sprintf("filterText: %q", p.filterText))
 		if p.filterField != "" {
-			a = append(a, fmt.Sprintf("filterTextFields: [%q]", p.filterField))
+			var qs []string
+			for _, fld := range strings.Split(p.filterField, ",") {
+				qs = append(qs, fmt.Sprintf("%q", fld))
+			}
+			a = append(a, "filterTextFields: ["+strings.Join(qs, ", ")+"]")
 		}
 	}
 	if p.sortBy != "" {
@@ -161,11 +173,14 @@ func refList(items []PItem, p params) []int64 {
 		}
 		tok := strings.ToLower(p.filterText)
 		match := false
-		if p.filterField == "s" || p.filterField == "" {
-			match = match || strings.Contains(strings.ToLower(it.Str), tok)
-		}
-		if p.filterField != "s" {
-			match = match || strings.Contains(strings.ToLower(it.Txt), tok)
+		// fields named s* read Str, fields named t* read Txt; an element is kept if any selected field matches
+		for _, fld := range strings.Split(p.filterField, ",") {
+			if fld == "" || fld[0] == 's' {
+				match = match || strings.Contains(strings.ToLower(it.Str), tok)
+			}
+			if fld == "" || fld[0] == 't' {
+				match = match || strings.Contains(strings.ToLower(it.Txt), tok)
+			}
 		}
 		if match {
 			kept = append(kept, it)
@@ -282,6 +297,10 @@ func run(rp *explore.Report, tier string) {
 	filters := []filt{{"", ""}, {"app", ""}, {"zzz", ""}, {"a", "s"}}
 	for _, f := range filterImpls[:5] {
 		filters = append(filters, filt{"app", f}, filt{"AP", f})
+	}
+	// several filter fields of different kinds at once, with elements that match through only one of them
+	for _, combo := range []string{"", "t,sx", "s,tx", "s,tb", "tx,sb", "s,tf0", "sx,tf1", "t,sx,sb"} {
+		filters = append(filters, filt{"a", combo}, filt{"c", combo})
 	}
 	sorts := []srt{{"", false}}
 	for _, s := range sortImpls {
@@ -433,5 +452,5 @@ func run(rp *explore.Report, tier string) {
 
 func init() {
 	reg.Register(&reg.Harness{Property: "C11", Name: "c11/pagination", Level: "exploration", Run: run,
-		Rule: "6 lists (n<=5, unordered unique keys, sort ties, mixed-case texts) x filter {none, hit, miss, second field} x filter implementation {plain, expensive, batch, batch+fallback on/off} x sort {none, int asc/desc, string asc/desc} x sort implementation (same five); forward and backward walks for every page size 1..n+1 must visit exactly the reference list (filter + stable sort) once, in order; single pages for every (after, before) in (cursors + unknown + absent)^2 x first/last in {absent,0..n+1}: totalCount, page content, hasNextPage/hasPrevPage per the property's wording, start/end and edge cursors"})
+		Rule: "6 lists (n<=5, unordered unique keys, sort ties, mixed-case texts) x filter {none, hit, miss, second field} x filter implementation {plain, expensive, batch, batch+fallback on/off} x combinations of two or three filter fields of different implementations over two columns (elements matching through only one of them) x sort {none, int asc/desc, string asc/desc} x sort implementation (same five); forward and backward walks for every page size 1..n+1 must visit exactly the reference list (filter + stable sort) once, in order; single pages for every (after, before) in (cursors + unknown + absent)^2 x first/last in {absent,0..n+1}: totalCount, page content, hasNextPage/hasPrevPage per the property's wording, start/end and edge cursors"})
 }
